@@ -1,5 +1,5 @@
 """property -> rules.  A property appears here only when its check is complete enough to be claimed."""
-from .rules import optable
+from .rules import optable, stack_rules
 
 PROPS = {}
 
@@ -25,6 +25,7 @@ def run(pid, ctx, rep):
 def c11(ctx, rep):
     optable.rule_opcode_classes(ctx, rep)
     optable.rule_stack_effect(ctx, rep)
+    stack_rules.rule_stack_discipline(ctx, rep)
     rep.assume("spec/avm_ops.json is the AVM stack effect of every v1-v8 opcode (hand-reviewed; version/mode cross-checked with PyTeal)")
 
 
@@ -108,6 +109,7 @@ def generic_core(ctx, rep):
     generic_tables.rule_edge(ctx, rep)
     generic_tables.rule_eqn(ctx, rep)
     generic_tables.rule_worklist(ctx, rep)
+    stack_rules.rule_stack_discipline(ctx, rep, full=False)
 
 
 @prop("C03", "Decides the structural clauses of C03 (exactness of the transfer tables on direct checks): (T-COMB) Boolean "
